@@ -51,7 +51,8 @@ def cat_subsets():
 
 @st.composite
 def _config(draw):
-    kind = draw(st.sampled_from(["cli", "cli", "cli", "none", "shortcut", "env", "bad"]))
+    # "defaults": nothing on the command line or in the environment - only the pyproject defaults decide
+    kind = draw(st.sampled_from(["cli", "cli", "cli", "none", "shortcut", "env", "bad", "defaults", "defaults"]))
     cfg = {"cli": None, "shortcut": None, "env_flags": None, "tty": draw(st.sampled_from([False, False, True])),
            "ci": None, "pycharm": False, "xdist": None, "pyproject": {}}
     if kind == "cli":
@@ -70,12 +71,15 @@ def _config(draw):
         cfg["env_flags"] = ",".join(draw(cat_subsets()) + draw(st.sampled_from([[], ["report"], ["short-report"], ["review"]])))
         if not cfg["env_flags"]:
             cfg["env_flags"] = "report"
-    if draw(st.booleans()):
+    if kind != "defaults" and draw(st.booleans()):
         cfg["env_flags"] = cfg["env_flags"] or (",".join(draw(cat_subsets())) or "report")
+    if kind == "defaults":
+        cfg["tty"] = draw(st.booleans())
     pp = {}
-    if draw(st.booleans()):
+    which = draw(st.sampled_from(["flags", "tui", "tui", "both"])) if kind == "defaults" else None
+    if which in ("flags", "both") or (which is None and draw(st.booleans())):
         pp["default-flags"] = draw(cat_subsets()) + draw(st.sampled_from([[], ["report"], ["short-report"]]))
-    if draw(st.booleans()):
+    if which in ("tui", "both") or (which is None and draw(st.booleans())):
         pp["default-flags-tui"] = draw(cat_subsets()) + draw(st.sampled_from([[], ["report"], ["review"]]))
     if cfg["shortcut"] in ("snapoff", "snapall") or draw(st.integers(0, 3)) == 0:
         # (names chosen so that they do not collide with options of pytest itself)
@@ -86,6 +90,8 @@ def _config(draw):
         pp["documented-defaults"] = True
     cfg["pyproject"] = pp
     env = draw(st.sampled_from(["none", "none", "none", "ci", "ci-pycharm", "xdist2", "xdist0"]))
+    if kind == "defaults" and draw(st.booleans()):
+        env = "none"
     if env.startswith("ci"):
         cfg["ci"] = draw(st.sampled_from(list(CI_VARS)))
         cfg["pycharm"] = env == "ci-pycharm"
